@@ -13,6 +13,8 @@
 Added after the second and third seeding rounds:
   trail-shrinks  decisions leave DecisionTracker.stack only through undo_last's pop (which resets their map entry)
   antecedents    (shared with C03) a learnt clause keeps every lower-level literal it was derived from
+Added after the fourth round:
+  clause-shape, watch-list  (shared with C01/C02) a clause forces its last literal only when it is unit
 """
 from common import *
 import q, enc
@@ -45,6 +47,11 @@ def run(ctx):
         # requirement or an abandoned choice was installed must stay conditional on it
         import c03
         ctx.guard("antecedents" + tag, c03.antecedents, ctx, crate, crs, tag)
+        # a solvable is forced true only when its clause is unit: which literals a clause has, which of them may take over a
+        # watch (all of them, for Requires and learnt clauses) and the slot bookkeeping of the watch lists decide "unit"
+        import c01, wl
+        ctx.guard("clause-shape" + tag, c01.clause_shape, ctx, crate, crs, tag)
+        ctx.guard("watch-list" + tag, wl.run, ctx, crate, crs, tag)
 
 
 def positive_literals(ctx, crate, crs, tag):
